@@ -1,5 +1,6 @@
 """C05 - reference-state circuits encode the requested occupations (exhaustive sweeps over small registers)."""
 import numpy as np
+from hypothesis import strategies as st
 
 from vlib.runner import part, Fail, Skip
 from vlib import refsim as R, refops as F
@@ -11,14 +12,20 @@ RULE = ("Exhaustive enumeration. hf_form: every n_spinorbitals in {2,4,6,8} (10 
         "same encodings/orderings through get_mapped_vector + vector_to_circuit. Oracle: the circuit has only plain X gates on "
         "get_qubit_number qubits, and for every spin-orbital p the diagonal element of fermion_to_qubit_mapping(a_p^ a_p, ...) on "
         "the prepared bit string equals the requested occupation (1e-12); every 5th case is also evaluated through the cirq "
-        "backend's get_expectation_value. Non-trivial = 0 < n_electrons < n_spinorbitals. Distinct = distinct "
+        "backend's get_expectation_value. arg_forms (sampled Hypothesis search, NOT exhaustive): the same two entry points with "
+        "n_electrons/spin as int|np.int64|np.int32, up_then_down as bool|0/1|np.bool_, the occupation vector as list|tuple|ndarray "
+        "(int64,int32,bool); the same ndarray handed to two successive calls must stay unchanged and give the same answer; an array "
+        "returned by get_vector/get_mapped_vector is overwritten in place and the identical call plus get_reference_circuit must "
+        "still give the requested occupations. Non-trivial = 0 < n_electrons < n_spinorbitals. Distinct = distinct "
         "(form, n, electrons/spin or vector, encoding, ordering).")
 ASSUMPTIONS = ["diagonal element of a Pauli sum on a computational basis state = sum of coefficients of its Z-only words times "
                "the product of (-1)^bit (self-tested against the dense Pauli matrices of vlib/refsim.py)",
                "requested occupation for spin=None/0 is the documented aufbau filling of the first n_electrons spin-orbitals "
                "(alternating alpha/beta); the operator encoder is then called with its default spin=0",
                "for a user vector the operator encoder is called with n_electrons=sum(vector), spin=n_alpha-n_beta of that vector",
-               "scBK needs n_spinorbitals >= 4 (two qubits are removed)", "cirq backend for the sampled sub-set"]
+               "scBK needs n_spinorbitals >= 4 (two qubits are removed)", "cirq backend for the sampled sub-set",
+               "arg_forms: all listed numpy/sequence argument forms are accepted by the state-preparation functions of the pinned "
+               "tree (established by experiment); the operator encoder of the oracle is always called with plain Python int/bool"]
 EXHAUSTIVE = True
 SHARDS = {"quick": 4, "thorough": 16}
 
@@ -222,3 +229,113 @@ def vector_form(ctx):
         return 0 < ne < n, lab
 
     ctx.sweep("vector_form", vec_cases(sizes), body)
+
+
+# =============================================================================================== argument forms and aliasing
+
+INT_FORMS = {"int": int, "int64": np.int64, "int32": np.int32}
+FLAG_FORMS = {"bool": bool, "int": int, "np_bool": np.bool_}
+VEC_FORMS = {"list": list, "tuple": tuple, "int64": lambda o: np.array(o, dtype=np.int64),
+             "int32": lambda o: np.array(o, dtype=np.int32), "bool": lambda o: np.array(o, dtype=bool)}
+
+
+def number_ops(mapping, n, ne, utd, spin):
+    from tangelo.toolboxes.operators import FermionOperator
+    from tangelo.toolboxes.qubit_mappings.mapping_transform import fermion_to_qubit_mapping
+    return [fermion_to_qubit_mapping(FermionOperator(((p, 1), (p, 0))), mapping, n, ne, utd, spin).terms for p in range(n)]
+
+
+def verify_vector(where, vec, ops, occ, mapping, n, step):
+    """vector -> circuit -> bit string -> diagonal elements of the encoded number operators."""
+    from tangelo.toolboxes.qubit_mappings.statevector_mapping import vector_to_circuit
+    from tangelo.toolboxes.qubit_mappings.mapping_transform import get_qubit_number
+    circ = vec if hasattr(vec, "width") else vector_to_circuit(vec)
+    bits = circuit_bits(circ, get_qubit_number(mapping, n), where)
+    for p in range(n):
+        val = diag_expect(ops[p], bits)
+        if abs(val - occ[p]) > 1e-12:
+            raise Fail(f"{where} [{step}]: <n_{p}> = {val} on prepared state {bits}, requested occupation {occ[p]} (mapping={mapping}, n={n})",
+                       sig=f"{where}:{mapping.upper()}:occupation:arg-forms", bits=bits, occ=list(occ), orbital=p)
+    return bits
+
+
+def scribble(out):
+    """Overwrite a returned vector in place (what a caller may legitimately do with its own result). Returns False if immutable."""
+    if isinstance(out, np.ndarray):
+        out[...] = (out == 0)
+        return True
+    if isinstance(out, list):
+        out[:] = [0 if x else 1 for x in out]
+        return True
+    return False
+
+
+@st.composite
+def form_cases(draw):
+    n = draw(st.sampled_from([2, 4, 4, 6, 6, 8]))
+    mapping = draw(st.sampled_from([m for m in MAPPINGS + ["SCBK", "JKMN"] if not (m == "SCBK" and n < 4)]))
+    c = {"n": n, "mapping": mapping, "utd": draw(st.booleans()), "utd_form": draw(st.sampled_from(sorted(FLAG_FORMS)))}
+    if draw(st.booleans()):
+        c["kind"] = "hf"
+        c["ne"] = draw(st.integers(0, n))
+        nonzero = [s for s in admissible_spins(n, c["ne"]) if s != 0]
+        c["spin"] = draw(st.sampled_from(nonzero * 3 + [None, 0]))
+        c["ne_form"] = draw(st.sampled_from(sorted(INT_FORMS)))
+        c["spin_form"] = draw(st.sampled_from(sorted(INT_FORMS)))
+    else:
+        c["kind"] = "vec"
+        c["vec"] = draw(st.lists(st.integers(0, 1), min_size=n, max_size=n))
+        c["vec_form"] = draw(st.sampled_from(sorted(VEC_FORMS)))
+    return c
+
+
+@part("arg_forms", quick=800, thorough=20000)
+def arg_forms(ctx):
+    import warnings
+    from tangelo.toolboxes.qubit_mappings.statevector_mapping import get_vector, get_mapped_vector, get_reference_circuit
+
+    def body(case):
+        n, m, utd = case["n"], case["mapping"], case["utd"]
+        utd_a = FLAG_FORMS[case["utd_form"]](utd)
+        lab = {m, "utd_form=" + case["utd_form"] + f":{utd}", "kind=" + case["kind"]}
+        with warnings.catch_warnings():
+            warnings.simplefilter("ignore", RuntimeWarning)    # documented: scBK enforces up-then-down ordering
+            if case["kind"] == "hf":
+                ne, spin = case["ne"], case["spin"]
+                occ = hf_occupation(n, ne, spin)
+                ops = number_ops(m, n, ne, utd, 0 if spin is None else spin)
+                ne_a = INT_FORMS[case["ne_form"]](ne)
+                spin_a = None if spin is None else INT_FORMS[case["spin_form"]](spin)
+                lab |= {"ne_form=" + case["ne_form"], "spin_form=" + ("None" if spin is None else case["spin_form"])}
+                if spin and case["spin_form"] != "int":
+                    lab.add("numpy-nonzero-spin")
+                v1 = get_vector(n, ne_a, m, utd_a, spin_a)
+                verify_vector("get_vector", v1, ops, occ, m, n, "first-call")
+                verify_vector("get_reference_circuit", get_reference_circuit(n, ne_a, m, utd_a, spin_a), ops, occ, m, n, "first-call")
+                if scribble(v1):
+                    lab.add("returned-array-overwritten")
+                verify_vector("get_vector", get_vector(n, ne_a, m, utd_a, spin_a), ops, occ, m, n, "after-overwriting-earlier-result")
+                verify_vector("get_reference_circuit", get_reference_circuit(n, ne_a, m, utd_a, spin_a), ops, occ, m, n,
+                              "after-overwriting-earlier-result")
+            else:
+                occ = list(case["vec"])
+                na, nb = sum(occ[0::2]), sum(occ[1::2])
+                ne = na + nb
+                ops = number_ops(m, n, ne, utd, na - nb)
+                make = VEC_FORMS[case["vec_form"]]
+                lab.add("vec_form=" + case["vec_form"])
+                arr = make(occ)
+                keep = list(arr)
+                o1 = get_mapped_vector(arr, m, utd_a)
+                o2 = get_mapped_vector(arr, m, utd_a)
+                if [int(x) for x in arr] != [int(x) for x in keep] or type(arr) is not type(make(occ)):
+                    raise Fail("get_mapped_vector modified the user's occupation vector", sig="get_mapped_vector:mutates-input")
+                verify_vector("get_mapped_vector", o1, ops, occ, m, n, "first-call")
+                verify_vector("get_mapped_vector", o2, ops, occ, m, n, "same-object-second-call")
+                o3 = get_mapped_vector(make(occ), m, utd_a)
+                if scribble(o3):
+                    lab.add("returned-array-overwritten")
+                verify_vector("get_mapped_vector", get_mapped_vector(make(occ), m, utd_a), ops, occ, m, n, "after-overwriting-earlier-result")
+        return 0 < ne < n, lab
+
+    ctx.search("arg_forms", form_cases(), body)
